@@ -6,5 +6,6 @@ CONSTANTS
   MaxAge = 1
   MaxReap = 1
   Faults = TRUE
+  SplitGet = FALSE
 INVARIANTS TypeOK OneTransportPerName
 PROPERTIES EveryCallReturns
